@@ -151,7 +151,7 @@ func (fr *former) norm(e ast.Expr, at Point, vars *[]*types.Var) string {
 	if strings.Contains(s, "local:") {
 		ast.Inspect(e, func(x ast.Node) bool {
 			if id, ok := x.(*ast.Ident); ok {
-				if v := fr.g.localVar(id); v != nil {
+				if v := fr.g.localVar(id); v != nil && strings.Contains(s, "local:"+v.Name()+"<") {
 					*vars = append(*vars, v)
 				}
 			}
